@@ -56,6 +56,11 @@
 // C18.fix (graph: every terminal state is a fixed point; no event-closed set of states without a
 // fixed point; no weakly fair cycle; longest path reported), C18.unique (graph: one best-route
 // table per live topology; the same history always gives the same state).
+//
+// Component level (ribunit.go, parent process, after the graph analysis): the real dv/table.Rib on
+// its own, driven with the call sequences of ribUpdate / checkDeadNeighbors / Router.Start over every
+// history of offers from 3-4 neighbours (costs 1..4 or not listed) for 1-2 destinations, to a
+// fixpoint, against best / second best recomputed from the full offer matrix.
 package main
 
 import (
@@ -1101,6 +1106,10 @@ func main() {
 		dvsim.ResetTraceDir("C18")
 		dvsim.ResetFallbackDir("C18")
 	}
+	var ribRun *ribRun
+	if _, w := explore.IsWorker(); !w && !(len(os.Args) >= 3 && os.Args[1] == "--replay") {
+		ribRun = startRibComponent()
+	}
 	explore.Main(explore.Spec{
 		ID: "C18", PanicClause: "C18.panic", Build: build, Configs: configs,
 		Budget: func(th bool) time.Duration {
@@ -1112,7 +1121,7 @@ func main() {
 			}
 			return 55 * time.Second // leaves room for the per-configuration minimum share and the graph analysis
 		},
-		Rule: "BFS to a fixpoint over event histories on N real dv.Router objects per topology; every transition checks C18.adv, every fixed point C18.dist / C18.withdraw; the recorded state graph is then analysed in the parent for C18.fix (terminal states, bottom SCCs, fair cycles, longest path) and C18.unique (one routing table per live topology)",
+		Rule: "BFS to a fixpoint over event histories on N real dv.Router objects per topology; every transition checks C18.adv, every fixed point C18.dist / C18.withdraw; the recorded state graph is then analysed in the parent for C18.fix (terminal states, bottom SCCs, fair cycles, longest path) and C18.unique (one routing table per live topology); PLUS component level: in-process BFS to a fixpoint on the real dv/table.Rib (reset+set+prune / remove+prune / set+prune sequences, every offer history of 3-4 neighbours x costs 1..4 x 1-2 destinations) against best / second best recomputed from the full offer matrix",
 		Assumptions: []string{
 			"the harness network delivers a sync Interest of router j to router i only over a live link (i,j), in order, and never delivers an outdated one; Data for an advertisement fetch comes from the addressed neighbour",
 			"tasks spawned by one event (go statements of dv/dv and std/sync) run to quiescence in FIFO order before the next event; tasks of different routers share no state, tasks of one router hold dv.mutex for their whole body (advertDataFetch excepted: it only reads the neighbour table before expressing an Interest; advertDataOnInterest excepted: it encodes and sends the advertisement it took after releasing the mutex - configurations reply=split suspend it at that point for as long as the Data of the deviation Xq is in flight, using a copy of its second half that is checked against the source and against the real handler's output)",
@@ -1124,10 +1133,12 @@ func main() {
 			"task interleaving: spawned tasks run FIFO to quiescence per event, except in the hold configurations, where the ribUpdate task spawned by advertDataHandler for one exchange per history is delayed past arbitrary later events (exchanges, faults, dead checks) and then released, or (event DcR) races checkDeadNeighbors for dv.mutex with real goroutines: whatever the held task does before locking runs first, then the dead check, then the rest of the task; other pre-lock / mid-task preemptions are not modelled",
 			"the management commands replayed by the harness are those the real nfdc loop (NfdMgmtThread.Start, one real goroutine per router) hands to the engine",
 			"graphs marked d=N are explored to depth N only; their remaining state space is covered by one schedule (round-robin; orders=K: K round-robin schedules with the routers visited in different orders) per frontier state",
+			"component level (rib *): one real table.Rib is driven with the call sequences of Router (U: DirtyResetNextHop, Set for every destination the advertisement lists below infinity, Prune - as ribUpdate; R: RemoveNextHop, Prune - as checkDeadNeighbors; S: Set, Prune - as Router.Start for the own entry), the oracle is evaluated after the Prune that ends each sequence (the sequences run under dv.mutex); offers are arbitrary (every vector of costs 1..maxCost / not listed per neighbour, not only those a real topology produces - transient states of count-to-infinity produce such vectors); where offers tie every tied neighbour is accepted, but the same offer matrix must always give the same pair of next hops; successors are computed from saved table contents (cross-checked against plain re-execution every 97th state; plain re-execution throughout if Rib/RibEntry have fields the hooks do not know)",
 			"topologies are enumerated up to isomorphism plus hand-labelled 5-router meshes; tie-breaks depend on name hashes, so other labellings of the same graph are different experiments that are only partly covered by varying the closing order",
 		},
 		Extra: func(rep *report.Reporter, cov report.Coverage) {
 			dvsim.AnalyseC18(rep, cov)
+			ribRun.finish(rep, cov) // component level: the real table.Rib on its own (ribunit.go)
 			cov["configs_computed_by_plain_reexecution_after_restore_mismatch"] = dvsim.FallbackConfigs("C18")
 			cov["split_advertisement_handler"] = dvsim.SplitReplyNote()
 		},
